@@ -74,6 +74,32 @@ def run_config(cfg, res):
       for _ in range(3000 if cfg['tier'] == 'quick' else 40000):
         n = r.randint(5, 40)
         yield ''.join(r.choice(ALPHA + ['b', 'c', '..', '/../', '中', '_tagged', ';x=', '\u2025', '\uff0f', '\uff0e', '\u2024', ';t=\ud800']) for _ in range(n))
+      # long names: segments around the file systems' 255-byte component limit (with and without room for an
+      # extension), each followed by neighbours that differ from it in exactly one character - at the ends, in the
+      # middle and around the limit - including characters whose UTF-8 encodings share their leading or trailing bytes
+      siblings = [('\u00e9', '\u0169'), ('\u20ac', '\u30ac'), ('\u00e9', '\u00ea'), ('a', 'b'), ('\u4e2d', '\u4e2e'), ('\U0001F600', '\U0001F601')]
+      for nbytes in ([200, 240, 251, 255, 256, 300] if cfg['tier'] == 'quick' else [100, 200, 230, 240, 247, 250, 251, 252, 254, 255, 256, 260, 300, 512, 1024]):
+        for where in ('last', 'middle', 'only'):
+          for a, b in siblings:
+            chars = []
+            size = 0
+            while size < nbytes:
+              c = r.choice([a, a, 'x', 'y', 'z', '_', '-', '0'])
+              chars.append(c)
+              size += len(c.encode('utf-8'))
+            pre, post = ('p.', '') if where == 'last' else (('p.', '.q') if where == 'middle' else ('', ''))
+            yield pre + ''.join(chars) + post
+            idxs = [i for i, c in enumerate(chars) if c == a]
+            pick = set(idxs[:1] + idxs[-1:] + [idxs[len(idxs) // 2]])
+            off = 0
+            for i, c in enumerate(chars):                    # every occurrence of `a` lying around byte offsets 225..260
+              if c == a and 225 <= off <= 260:
+                pick.add(i)
+              off += len(c.encode('utf-8'))
+            for i in sorted(pick):
+              nb = list(chars)
+              nb[i] = b
+              yield pre + ''.join(nb) + post
     # second exhaustive family: unicode compatibility look-alikes of the path characters (length <= 4)
     if first in UNI_ALPHA or first == ALPHA[1]:
       f2 = UNI_ALPHA[ALPHA.index(first) % len(UNI_ALPHA)] if first not in UNI_ALPHA else first
